@@ -27,6 +27,6 @@ def run(ctx):
         ctx.escalated = True
     step_diff(ctx, "vh-dc", "replay_window", "replay_window", tier_n(ctx, 20000, 150000))
     step_diff(ctx, "vh-dc", "key_ids", "key_ids", tier_n(ctx, 12000, 100000))
-    if ctx.tier == "thorough" or ctx.escalated:
+    if ctx.tier == "thorough" or ctx.deep:
         ctx.exhaustive = True
         ctx.extra["exhaustive_scope"] = "replay_window: all 9^6 words over {0,1,2,895,896,897,898,MAX-1,MAX} (bounded support, not a proof obligation)"
